@@ -845,7 +845,7 @@ func init() {
 		Assumptions: []string{"the loading authorizer is fresh (nothing added before LoadPolicies)"},
 		NumCases: func(tier string) int {
 			if tier == "thorough" {
-				return 6000
+				return 30000
 			}
 			return 300
 		},
